@@ -81,6 +81,10 @@ def draw_reject(h):
     draw = h.draw
     group = draw(st.sampled_from(["fit", "fit", "fit", "query", "arm", "ws", "init"]))
     pool = {"fit": FIT_KINDS, "query": QUERY_KINDS, "arm": ARM_KINDS, "ws": WS_KINDS, "init": INIT_KINDS}[group]
+    if group == "fit":
+        # the rejections that surface from inside training (after validation) are the ones most likely to leave
+        # state behind: weight them
+        pool = pool + ["pf_wrong_columns"] * 4 + ["clusters_few_rows"] * 3
     ok = [k for k in pool if group == "init" or applicable(k, h)]
     if not ok:
         ok = ["add_dup"]
@@ -122,7 +126,12 @@ def draw_reject(h):
         payload = {"features": [[a, draw(st.lists(st.integers(-2, 2), min_size=nf, max_size=nf))] for a in h.arms],
                    "extra": (h._free_labels() or ["fresh-label"])[0]}
     h.ops.append(["reject", kind, payload])
-    return h.ops[-1]
+    op = h.ops[-1]
+    if h.fitted and (kind in ("pf_wrong_columns", "clusters_few_rows") or draw(st.booleans())):
+        # immediately consult the state the rejected call may have touched, before any successful training call
+        # overwrites it: an arm change, a warm start or a query
+        gen.step_any(h, ["add_arm", "add_arm", "remove_arm", "warm_start", "predict", "predict_expectations"], True)
+    return op
 
 
 @st.composite
@@ -382,7 +391,7 @@ def evaluate(plan, ctx):
 
 
 SUBCHECKS = [
-    SubCheck("inject", strategy, evaluate, quick=3000, thorough=50000),
+    SubCheck("inject", strategy, evaluate, quick=10000, thorough=120000),
     # thorough tier only: coverage-guided campaign (atheris) over the same generator and oracle
     SubCheck("atheris", strategy, evaluate, 0, 0, external=campaign.atheris_external("C17", "inject")),
 ]
